@@ -118,11 +118,16 @@ func (sc *Scanner) skipComments(ch int) error {
 	if sc.Peek() == '[' {
 		ch = sc.Next()
 		if sc.Peek() == '[' || sc.Peek() == '=' {
-			var buf bytes.Buffer
-			if err := sc.scanMultilineString(sc.Next(), &buf); err != nil {
-				return sc.Error(buf.String(), "invalid multiline comment")
+			var count int
+			count, ch = sc.countSep(sc.Next())
+			if ch == '[' {
+				var buf bytes.Buffer
+				if err := sc.scanMultilineStringBody(count, &buf); err != nil {
+					return sc.Error(buf.String(), "invalid multiline comment")
+				}
+				return nil
 			}
-			return nil
+			// "--[=x": no long bracket, the comment ends with the line
 		}
 	}
 	for {
@@ -262,12 +267,18 @@ func (sc *Scanner) countSep(ch int) (int, int) {
 }
 
 func (sc *Scanner) scanMultilineString(ch int, buf *bytes.Buffer) error {
-	var count1, count2 int
+	var count1 int
 	count1, ch = sc.countSep(ch)
 	if ch != '[' {
 		return sc.Error(string(rune(ch)), "invalid multiline string")
 	}
-	ch = sc.Next()
+	return sc.scanMultilineStringBody(count1, buf)
+}
+
+// scanMultilineStringBody reads what follows the opening long bracket of level count1.
+func (sc *Scanner) scanMultilineStringBody(count1 int, buf *bytes.Buffer) error {
+	var count2 int
+	ch := sc.Next()
 	if ch == '\n' || ch == '\r' {
 		ch = sc.Next()
 	}
